@@ -964,21 +964,35 @@ def _respell(arr, S, how, np):
     """the same structure with annotations / coordinates given in another NumPy spelling"""
     a = arr.copy()
     f = S["flags"]
+
+    def put(name, values):
+        # set_annotation() on an existing category casts to the dtype that is already there: remove it first
+        a.del_annotation(name)
+        a.set_annotation(name, values)
+        if a.get_annotation(name).dtype != values.dtype and values.dtype != np.float32:
+            raise AssertionError(f"harness: {name} did not keep dtype {values.dtype}")
     if how == "float32-annotations":
         if f["b"]:
-            a.set_annotation("b_factor", a.b_factor.astype(np.float32))
+            put("b_factor", a.b_factor.astype(np.float32))
         if f["occ"]:
-            a.set_annotation("occupancy", a.occupancy.astype(np.float32))
+            put("occupancy", a.occupancy.astype(np.float32))
     elif how == "narrow-ints":
         if f["q"]:
-            a.set_annotation("charge", a.charge.astype(np.int8))
+            put("charge", a.charge.astype(np.int8))
         if f["id"]:
             ids = a.atom_id
             for dt in (np.int8, np.uint8, np.int16, np.uint16, np.int32, np.uint32):
                 if ids.min() >= np.iinfo(dt).min and ids.max() <= np.iinfo(dt).max:
-                    a.set_annotation("atom_id", ids.astype(dt))
+                    put("atom_id", ids.astype(dt))
                     break
         a.res_id = a.res_id.astype(np.int32)
+    elif how == "float-ints":
+        # integral values held in floating-point arrays (e.g. the result of arithmetics)
+        if f["id"]:
+            put("atom_id", a.atom_id.astype(np.float64))
+        if f["q"]:
+            put("charge", a.charge.astype(np.float64))
+        a.res_id = a.res_id.astype(np.float64)
     elif how == "layout":
         c64 = np.asfortranarray(a.coord.astype(np.float64))
         a.coord = c64
@@ -991,9 +1005,11 @@ def _respell(arr, S, how, np):
         a.atom_name = a.atom_name.astype("U12")
         a.element = list(a.element)
         if f["b"]:
-            a.set_annotation("b_factor", a.b_factor.astype(">f8"))     # byte-swapped
+            put("b_factor", a.b_factor.astype(">f8"))     # byte-swapped
         if f["q"]:
-            a.set_annotation("charge", a.charge.astype(">i4"))
+            put("charge", a.charge.astype(">i4"))
+        if f["id"]:
+            put("atom_id", a.atom_id.astype(">i8"))
         # the box is NOT re-laid out: its cell angles are float32 dot products whose last bit depends on the summation order
         # (contiguous vs strided), which flips a rounding tie such as 45.005 -> 45.00/45.01 or arccos near 0/180 degrees
     return a
@@ -1022,7 +1038,7 @@ def _oracle_api(S, extra):
             else:
                 ref = list(f0.lines)
             # --- 3. same value, another spelling (writer)
-            for how in ("float32-annotations", "narrow-ints", "layout"):
+            for how in ("float32-annotations", "narrow-ints", "float-ints", "layout"):
                 for flag in (f["h36"], np.bool_(f["h36"]), int(f["h36"])):
                     g = PDBFile()
                     try:
